@@ -1,4 +1,9 @@
 # C12 – Retry middleware: bounded attempts, back-off, first success wins, error kept.
+#
+# Request (see harness/cmd/c12/main.go, lean/Driver/C12.lean):
+#   retry mr= init= max= mul=p/q rf=a/b el= hook= outs=<f|s><k>,… cancel=<j|-> sleep=<j>:<ns>|-   (inputs)
+#         n= d= ts= te= tr=                                                                        (recorded from the run)
+# Observation: n=<calls> hooks=<num>:<delay>,… res=<msgs>/<err> time=ok
 
 
 def _kv(req):
@@ -6,7 +11,7 @@ def _kv(req):
 
 
 def nontrivial(req, obs):
-    # at least one retry was made (the loop, the back-off and the hook are exercised)
+    # at least one retry was made: the loop, the back-off and (when set) the hook were exercised
     try:
         return int(_kv(req).get("n", "0")) >= 2
     except ValueError:
@@ -15,18 +20,66 @@ def nontrivial(req, obs):
 
 PROP = {
     "id": "C12",
-    "lean_targets": ["WmModel.Props.C12"],
+    "lean_targets": ["WmModel.Props.C12", "WmModel.Props.C12Tie"],
     "audit_module": "Audit.C12",
     "theorems": [
-        "Wm.Retry.never_out_of_fuel", "Wm.Retry.at_most_max_retries",
+        "Wm.Retry.never_out_of_fuel", "Wm.Retry.attempts_follow_script",
+        "Wm.Retry.first_success_wins", "Wm.Retry.at_most_max_retries", "Wm.Retry.exhausts_all_retries",
+        "Wm.Retry.result_is_last_attempts", "Wm.Retry.last_error_returned", "Wm.Retry.never_invents_success",
+        "Wm.Retry.returned_messages",
+        "Wm.Retry.hooks_in_order", "Wm.Retry.no_hook_calls_without_hook", "Wm.Retry.hook_reports_wait",
+        "Wm.Retry.interval_closed_form", "Wm.Retry.interval_closed_form_frac",
+        "Wm.Retry.wait_at_least_backoff", "Wm.Retry.wait_at_least_configured_backoff",
+        "Wm.Retry.wait_at_least_configured_backoff_frac", "Wm.Retry.reported_delay_in_interval", "Wm.Retry.waited_reported_delay",
+        "Wm.Retry.gives_up_on_ctx_end", "Wm.Retry.gives_up_keeps_error",
+        "Wm.Retry.gives_up_on_elapsed", "Wm.Retry.gives_up_on_elapsed_observable",
+        "Wm.Retry.old_retry_after_stop_witness",
     ],
-    "tie_theorems": [],
+    # over the closure body regenerated from message/router/middleware/retry.go on every run
+    "tie_theorems": ["Wm.GoRetry.extracted_retry_eq_model", "Wm.GoRetry.extracted_ctx_deadline"],
     "harness": "c12",
     "race": True,
     "driver": "drv_c12",
     "nontrivial": nontrivial,
-    "rule": "",
-    "trusted_base": [],
-    "assumptions": [],
-    "explanation": "",
+    "search_seeds": 3,
+    "rule": "Real middleware.Retry with the real cenkalti/backoff and the real clock. logic: MaxRetries -1..8 x first success at call "
+            "0..1+MaxRetries or never x hook set/unset, zero intervals, exhaustively; cancel: the context cancelled from inside call j for "
+            "every j (MaxRetries 1..4 quick / 1..8 thorough) with the racing wait >= 10 ms; schedule: 260 (quick) / 2600 (thorough) seeded "
+            "configurations, InitialInterval 0..3 ms, MaxInterval up to 5 ms, Multiplier {1, 3/2, 2, 3}, RandomizationFactor {0, 1/2, 1}, "
+            "fail^i then succeed or fail forever, 0..2 output messages per call (also from failing calls); elapsed: MaxElapsedTime 30 ms with "
+            "a call sleeping 150 ms at call 0..4, MaxElapsedTime 2..12 ms against waits of 1..6 ms, and 10 s (no effect); odd: "
+            "InitialInterval > MaxInterval, Multiplier 1/2, MaxInterval 0, MaxRetries <= 0, nanosecond intervals with truncation. Compared "
+            "exactly: number of calls, hook numbers, reported delays (each must be reproducible by a draw in [0,1) from the model's interval), "
+            "returned messages and error identity. By inequality only: gap between calls >= wait, no call begun after MaxElapsedTime, early "
+            "give-up only when the context can have ended. Non-trivial = at least one retry was made; distinct = distinct (request, observation).",
+    "trusted_base": [
+        "Lean 4.33.0 kernel; axioms per theorem listed under theorem_axioms (subset of propext, Classical.choice, Quot.sound)",
+        "hand-written model WmModel/Retry.lean of retry.go and of cenkalti/backoff v3.2.2 exponential.go (NextBackOff, incrementCurrentInterval, "
+        "getRandomValueFromInterval), with integer nanoseconds and fractions in place of float64 (exact for the generated values: multipliers "
+        "and factors are dyadic or 3/2, intervals < 2^50 ns)",
+        "extractor harness/cmd/extract/c12.go (go/ast printer of the closure body) and the interpreter WmModel/GoRetry.lean as the semantics "
+        "of those Go statements (select = scripted choice between ctx.Done() and the timer; time.After never fires early; Stop = -1 ns is due at once)",
+        "differential harness harness/cmd/c12 + Lean driver Driver/C12.lean (reconstruction of draws, lags and select picks from the recorded run)",
+        "Go runtime: monotonic clock, time.After, context cancellation; math/rand.Float64 in [0,1)",
+    ],
+    "assumptions": [
+        "which alternative a select with both channels ready takes is not determined by Go; the harness makes the racing wait >= 10 ms in "
+        "cancellation cases and re-runs a case up to 2 more times before reporting a call made after the cancelling one",
+        "real time is sampled: waits are checked as lower bounds only (gap >= reported delay >= model lower bound), never as upper bounds",
+        "OnRetryHook unset: delays are not observable, the model then assumes the smallest wait of each interval",
+        "negative durations and RandomizationFactor > 1 are outside the model (rejected as bad-op, not generated)",
+    ],
+    "explanation": "Theorems cover every clause of the statement for all configurations and all scripts (outcomes, draws, select picks, "
+                   "lags, durations): first success wins, at most MaxRetries re-invocations (and exactly that many when nothing ends the "
+                   "loop), hooks 1,2,.. one per failed retry with the wait of that pass, closed form of the interval from the library's "
+                   "update rule (exact for integer multipliers, within the library's integer truncation for fractional ones), wait >= "
+                   "floor(cur_k(1-rf)), reported delay within the jitter interval, last error returned, no invented success, give-up on "
+                   "ctx.Done and on MaxElapsedTime with the error kept. The closure body is re-extracted from the source on every run and "
+                   "proved equal to the model (extracted_retry_eq_model); the harness validates the model against the real code and clock.",
+    "level_text": "proof",
+    "level_note": "All clauses are theorems over the model for all inputs; the model is tied to the current source by a kernel-checked "
+                  "equality with the extracted closure body and by differential execution. Real-time behaviour (timers, scheduler) and the "
+                  "back-off library are modelled and validated by the harness, not verified.",
+    "technique": "executable Lean model with time and randomness as script inputs; induction over the loop fuel; deep-embedded Go body + "
+                 "interpreter + equality theorem; differential harness in check mode (model explains the recorded run) + independent monitor",
 }
